@@ -91,6 +91,10 @@ theorem bus_has_no_lock_order_deadlock (ws : List Waiter) (hw : âˆ€ w âˆˆ ws, âˆ
     Â¬ Deadlocked ws :=
   no_lock_order_deadlock T A rt every_function_is_accepted acq_is_closed the_order_is_ranked ws hw
 
+/-- no mutex of bus/ is, through any number of steps "asked for while held", asked for while it is held itself -/
+theorem no_cycle_among_the_mutexes_of_bus (m : Nat) : Â¬ Path (edges T A) m m :=
+  ranked_acyclic (edges T A) rt the_order_is_ranked m
+
 /-- the shape of the cycle the pinned tree had (`AddFilter` kept its lock across the call; 0 the filters of a listener,
     1 the listeners of the manager): refused, and the goroutines it speaks of are deadlocked -/
 theorem the_cycle_before_the_repair :
